@@ -309,3 +309,17 @@ Definition sid_eqb (a b : sid) : bool :=
 Definition sasc (a b : sid) : bool :=
   let '(a1, a2, a3) := a in let '(b1, b2, b3) := b in
   if seqb a1 b1 then (if seqb a2 b2 then slt a3 b3 else slt a2 b2) else slt a1 b1.
+
+(* ---------- calculateRoutes (IPv4 manager): which routes an admin-up endpoint gets ----------
+   lm = the endpoint's entry in pendingLiveMigrationStates (LmNone = no entry; OnLiveMigrationStateUpdate deletes the
+   entry for the base state).  nets = Ipv4Nets, ext = the ExtIp of every Ipv4Nat entry, in order.  A route is
+   (address, priority). *)
+Inductive lm := LmNone | LmTarget | LmLive | LmTimeWait.
+Definition calc_routes (fip openstack : bool) (l : lm) (nprio eprio : N) (nets ext : list N) : list (N * N) :=
+  match l with
+  | LmTarget => []                     (* "Live migration target, suppressing routes" *)
+  | _ =>
+      let ips := nets ++ (if fip || openstack then ext else []) in
+      let prio := match l with LmNone => nprio | _ => eprio end in
+      map (fun ip => (ip, prio)) ips
+  end.
